@@ -1416,13 +1416,806 @@ fn run_docs(args: &Args, rec: &mut Recorder) {
     }
 }
 
+// ================================================================================================
+// the sampled containers and the bit array on their own
+// ================================================================================================
+
+fn pairs(xs: &[(usize, u64)]) -> String {
+    if xs.is_empty() {
+        "-".into()
+    } else {
+        xs.iter().map(|(a, b)| format!("{}:{}", a, b)).collect::<Vec<_>>().join(",")
+    }
+}
+
+/// `bv ba`: `Builder::push_word` / `seal` / `BitArray::load` against the flat-bit-list model
+fn ba_case(rec: &mut Recorder, pushes: Vec<(usize, u64)>, loads: Vec<(usize, usize)>) {
+    use scrunch::bit_array::{BitArray, Builder as BaBuilder};
+    let req = format!("bv ba {} {}", pairs(&pushes), pairs(&loads.iter().map(|(i, w)| (*i, *w as u64)).collect::<Vec<_>>()));
+    let r = g(|| {
+        let mut b = BaBuilder::with_capacity(8);
+        let mut offs = vec![];
+        for (w, v) in &pushes {
+            offs.push(b.len());
+            b.push_word(*v, *w);
+        }
+        let bytes = b.seal();
+        let ba = BitArray::new(&bytes);
+        let ld: Vec<Option<u64>> = loads.iter().map(|(i, w)| ba.load(*i, *w)).collect();
+        let back: Vec<Option<u64>> = pushes.iter().zip(offs.iter()).map(|((w, _), o)| ba.load(*o, *w)).collect();
+        (bytes.len(), ld, back)
+    });
+    rec.count("ba.cases");
+    rec.add("ba.loads_total", loads.len() as u64);
+    match r {
+        Ok((nbytes, ld, back)) => {
+            let line = format!("bytes={};ld={}", nbytes, if ld.is_empty() { "-".to_string() } else { ld.iter().map(|x| x.map(|v| v.to_string()).unwrap_or("-".into())).collect::<Vec<_>>().join(",") });
+            let bad = pushes.iter().zip(back.iter()).position(|((_, v), b)| *b != Some(*v));
+            let v = match bad {
+                None => Verdict::Ok,
+                Some(k) => Verdict::Fail { class: "bitarray-roundtrip".into(), detail: format!("field #{} {:?} read back as {:?}", k, pushes[k], back[k]) },
+            };
+            rec.case(&req, &line, v, Some(fnv(req.as_bytes())));
+        }
+        Err(m) => rec.case(&req, "panic", Verdict::Fail { class: "bv-panic".into(), detail: m }, Some(fnv(req.as_bytes()))),
+    }
+}
+
+/// `doc sarr`: a `SampledArray` built from (offset, value) pairs, asked at every offset
+fn sarr_case(rec: &mut Recorder, rng: &mut Rng, vals: Vec<(usize, usize)>, kind: &str) {
+    use scrunch::sampled::SampledArray;
+    let last = vals.last().map(|x| x.0).unwrap_or(0);
+    // every offset when the array is short; otherwise the samples, their neighbours, the end, and
+    // random offsets
+    let probes: Vec<usize> = if last <= 1500 {
+        (0..last + 3).collect()
+    } else {
+        let mut p: Vec<usize> = vec![0, 1, last, last + 1, last + 2];
+        for (o, _) in &vals {
+            p.extend_from_slice(&[o.saturating_sub(1), *o, *o + 1]);
+        }
+        for _ in 0..200 {
+            p.push(rng.below(last as u64 + 3) as usize);
+        }
+        p.sort();
+        p.dedup();
+        p
+    };
+    let req = format!("doc sarr {} {}", pairs(&vals.iter().map(|(a, b)| (*a, *b as u64)).collect::<Vec<_>>()), if last <= 1500 { "all".to_string() } else { nums(probes.iter()) });
+    let r = g(|| -> Result<(Vec<Option<usize>>, Vec<Option<usize>>), String> {
+        let mut buf = vec![];
+        {
+            let mut b = Builder::new(&mut buf);
+            SampledArray::construct(&vals, &mut b).map_err(|e| format!("construct:{:?}", e))?;
+        }
+        let (sa, _) = SampledArray::parse(&buf).map_err(|e| format!("parse:{:?}", e))?;
+        let a: Vec<Option<usize>> = probes.iter().map(|&x| sa.lookup(x)).collect();
+        // the u32 constructor, when the values fit
+        let b = if vals.iter().all(|(_, v)| *v <= u32::MAX as usize) {
+            let v32: Vec<(usize, u32)> = vals.iter().map(|(o, v)| (*o, *v as u32)).collect();
+            let mut buf2 = vec![];
+            {
+                let mut b = Builder::new(&mut buf2);
+                SampledArray::construct_u32(&v32, &mut b).map_err(|e| format!("construct_u32:{:?}", e))?;
+            }
+            let (sa2, _) = SampledArray::parse(&buf2).map_err(|e| format!("parse_u32:{:?}", e))?;
+            probes.iter().map(|&x| sa2.lookup(x)).collect()
+        } else {
+            a.clone()
+        };
+        Ok((a, b))
+    });
+    rec.count(&format!("sarr.{}", kind));
+    let nt = Some(fnv(req.as_bytes()));
+    match r {
+        Ok(Ok((a, b))) => {
+            let line = format!("lk={}", a.iter().map(|x| x.map(|v| v.to_string()).unwrap_or("-".into())).collect::<Vec<_>>().join(","));
+            let exp: Vec<Option<usize>> = probes.iter().map(|x| vals.iter().find(|(o, _)| o == x).map(|(_, v)| *v)).collect();
+            let v = if a != exp {
+                let x = (0..exp.len()).find(|&x| a[x] != exp[x]).unwrap();
+                Verdict::Fail { class: "sampled-array-answer".into(), detail: format!("lookup({})={:?} expected {:?}", probes[x], a[x], exp[x]) }
+            } else if a != b {
+                Verdict::Fail { class: "sampled-array-answer".into(), detail: "construct_u32 differs from construct".into() }
+            } else {
+                Verdict::Ok
+            };
+            rec.case(&req, &line, v, nt);
+        }
+        Ok(Err(m)) => rec.case(&req, &m.replace(' ', "_"), Verdict::Fail { class: "sampled-array-answer".into(), detail: m }, nt),
+        Err(m) => rec.case(&req, "panic", Verdict::Fail { class: "doc-panic".into(), detail: m }, nt),
+    }
+}
+
+/// suffix array of `text` + end marker by plain sorting (a proper prefix sorts first, exactly as
+/// with a unique smallest end marker), its inverse and psi
+fn naive_sa(text: &[u32]) -> (Vec<usize>, Vec<usize>, Vec<usize>) {
+    let n = text.len();
+    let mut sa: Vec<usize> = (0..=n).collect();
+    sa.sort_by(|&a, &b| text[a..].cmp(&text[b..]));
+    let mut isa = vec![0usize; n + 1];
+    for (i, &p) in sa.iter().enumerate() {
+        isa[p] = i;
+    }
+    let psi: Vec<usize> = sa.iter().map(|&p| isa[(p + 1) % (n + 1)]).collect();
+    (sa, isa, psi)
+}
+
+fn build_sigma(text: &[u32]) -> Result<Vec<u8>, String> {
+    let mut buf = vec![];
+    let mut b = Builder::new(&mut buf);
+    scrunch::sigma::Sigma::construct(text.iter().copied(), &mut b).map_err(|e| format!("sigma:{:?}", e))?;
+    drop(b);
+    Ok(buf)
+}
+
+fn show_res(xs: &[Result<usize, ()>]) -> String {
+    xs.iter().map(|x| x.map(|v| v.to_string()).unwrap_or("err".into())).collect::<Vec<_>>().join(",")
+}
+
+/// `doc ssa`: the real `SampledSuffixArray` of stride `2^sampling` over the exact suffix array,
+/// walking the reference psi, asked at every rank and two beyond
+fn ssa_case(rec: &mut Recorder, sampling: usize, text: Vec<u32>, shape: &str) {
+    use scrunch::psi::ReferencePsi;
+    use scrunch::sa::SampledSuffixArray;
+    let n = text.len();
+    let req = format!("doc ssa {} {}", sampling, nums(text.iter()));
+    let (sa, _isa, psi) = naive_sa(&text);
+    let r = g(|| -> Result<(Vec<Result<usize, ()>>, Vec<Result<usize, ()>>), String> {
+        let sigma_buf = build_sigma(&text)?;
+        let sigma = <scrunch::sigma::Sigma as Unpackable>::unpack(&sigma_buf).map_err(|e| format!("sigma:{:?}", e))?.0;
+        let rpsi = ReferencePsi::new(&psi);
+        let mut buf = vec![];
+        {
+            let mut b = Builder::new(&mut buf);
+            SampledSuffixArray::construct(sampling, &sa, &mut b).map_err(|e| format!("construct:{:?}", e))?;
+        }
+        let ssa = SampledSuffixArray::unpack(&buf).map_err(|e| format!("unpack:{:?}", e))?.0;
+        let a: Vec<Result<usize, ()>> = (0..n + 3).map(|i| ssa.lookup(&sigma, &rpsi, i).map_err(|_| ())).collect();
+        let sa32: Vec<u32> = sa.iter().map(|x| *x as u32).collect();
+        let mut buf2 = vec![];
+        {
+            let mut b = Builder::new(&mut buf2);
+            SampledSuffixArray::construct_u32(sampling, &sa32, &mut b).map_err(|e| format!("construct_u32:{:?}", e))?;
+        }
+        let ssa2 = SampledSuffixArray::unpack(&buf2).map_err(|e| format!("unpack_u32:{:?}", e))?.0;
+        let b: Vec<Result<usize, ()>> = (0..n + 3).map(|i| ssa2.lookup(&sigma, &rpsi, i).map_err(|_| ())).collect();
+        Ok((a, b))
+    });
+    rec.count(&format!("ssa.sampling.{}", sampling));
+    rec.count(&format!("ssa.shape.{}", shape));
+    let stride = 1usize << sampling;
+    rec.count(&format!("ssa.len_mod_stride.{}", match (n + 1) % stride { 0 => "0", 1 => "1", x if x == stride - 1 => "-1", _ => "other" }));
+    let nt = if n >= 2 { Some(fnv(req.as_bytes())) } else { None };
+    match r {
+        Ok(Ok((a, b))) => {
+            let line = format!("sa={}", show_res(&a));
+            let exp: Vec<Result<usize, ()>> = (0..n + 3).map(|i| sa.get(i).copied().ok_or(())).collect();
+            let v = if a != exp {
+                let i = (0..exp.len()).find(|&i| a[i] != exp[i]).unwrap();
+                Verdict::Fail { class: "sampled-sa-answer".into(), detail: format!("sampling={} n={} lookup({})={:?} expected {:?}", sampling, n, i, a[i], exp[i]) }
+            } else if a != b {
+                Verdict::Fail { class: "sampled-sa-answer".into(), detail: "construct_u32 differs from construct".into() }
+            } else {
+                Verdict::Ok
+            };
+            rec.case(&req, &line, v, nt);
+        }
+        Ok(Err(m)) => rec.case(&req, "construct-failed", Verdict::Fail { class: "sampled-sa-answer".into(), detail: m }, nt),
+        Err(m) => rec.case(&req, "panic", Verdict::Fail { class: "doc-panic".into(), detail: m }, nt),
+    }
+}
+
+/// `doc sisa`: the real `SampledInverseSuffixArray` over the given positions, asked at every text
+/// position and two beyond; inadmissible position lists must be refused
+fn sisa_case(rec: &mut Recorder, text: Vec<u32>, ps: Vec<usize>, kind: &str) {
+    use scrunch::isa::SampledInverseSuffixArray;
+    let n = text.len();
+    let req = format!("doc sisa {} {}", nums(text.iter()), nums(ps.iter()));
+    let (_sa, isa, _psi) = naive_sa(&text);
+    let valid = ps.windows(2).all(|w| w[0] < w[1]) && ps.iter().all(|p| *p <= n);
+    let r = g(|| -> Result<Option<(Vec<Result<usize, ()>>, Vec<Result<usize, ()>>)>, String> {
+        let mut buf = vec![];
+        let c1 = {
+            let mut b = Builder::new(&mut buf);
+            SampledInverseSuffixArray::construct(&isa, &ps, &mut b)
+        };
+        let isa32: Vec<u32> = isa.iter().map(|x| *x as u32).collect();
+        let mut buf2 = vec![];
+        let c2 = {
+            let mut b = Builder::new(&mut buf2);
+            SampledInverseSuffixArray::construct_u32(&isa32, &ps, &mut b)
+        };
+        match (c1, c2) {
+            (Err(_), Err(_)) => Ok(None),
+            (Ok(()), Ok(())) => {
+                let s1 = SampledInverseSuffixArray::unpack(&buf).map_err(|e| format!("unpack:{:?}", e))?.0;
+                let s2 = SampledInverseSuffixArray::unpack(&buf2).map_err(|e| format!("unpack_u32:{:?}", e))?.0;
+                let a = (0..n + 3).map(|x| s1.lookup(x).map_err(|_| ())).collect();
+                let b = (0..n + 3).map(|x| s2.lookup(x).map_err(|_| ())).collect();
+                Ok(Some((a, b)))
+            }
+            _ => Err("construct and construct_u32 disagree on admission".into()),
+        }
+    });
+    rec.count(&format!("sisa.{}", kind));
+    let nt = Some(fnv(req.as_bytes()));
+    match r {
+        Ok(Ok(None)) => {
+            let v = if valid { Verdict::Fail { class: "sampled-isa-answer".into(), detail: "admissible positions refused".into() } } else { Verdict::Ok };
+            rec.case(&req, "err", v, nt);
+        }
+        Ok(Ok(Some((a, b)))) => {
+            let line = format!("isa={}", show_res(&a));
+            let exp: Vec<Result<usize, ()>> = (0..n + 3).map(|x| if ps.contains(&x) { Ok(isa[x]) } else { Err(()) }).collect();
+            let v = if !valid {
+                Verdict::Fail { class: "sampled-isa-answer".into(), detail: "inadmissible positions accepted".into() }
+            } else if a != exp {
+                let x = (0..exp.len()).find(|&x| a[x] != exp[x]).unwrap();
+                Verdict::Fail { class: "sampled-isa-answer".into(), detail: format!("lookup({})={:?} expected {:?}", x, a[x], exp[x]) }
+            } else if a != b {
+                Verdict::Fail { class: "sampled-isa-answer".into(), detail: "construct_u32 differs from construct".into() }
+            } else {
+                Verdict::Ok
+            };
+            rec.case(&req, &line, v, nt);
+        }
+        Ok(Err(m)) => rec.case(&req, &m.replace(' ', "_"), Verdict::Fail { class: "sampled-isa-answer".into(), detail: m }, nt),
+        Err(m) => rec.case(&req, "panic", Verdict::Fail { class: "doc-panic".into(), detail: m }, nt),
+    }
+}
+
+/// `doc sigma`: the alphabet on its own — `Sigma::construct` / `unpack` and every query
+fn sigma_case(rec: &mut Recorder, text: Vec<u32>, probes: Vec<u32>, alpha: &str) {
+    use scrunch::sigma::Sigma;
+    let n = text.len();
+    let req = format!("doc sigma {} {}", nums(text.iter()), nums(probes.iter()));
+    let opt = |o: Option<u32>| o.map(|v| v.to_string()).unwrap_or("-".into());
+    let r = g(|| -> Result<String, String> {
+        let buf = build_sigma(&text)?;
+        let sg = <Sigma as Unpackable>::unpack(&buf).map_err(|e| format!("unpack:{:?}", e))?.0;
+        let k = sg.K();
+        let s2c: Vec<String> = (1..=k as u32 + 1).map(|i| opt(sg.sigma_to_char(i))).collect();
+        let c2s: Vec<String> = probes.iter().map(|p| opt(sg.char_to_sigma(*p))).collect();
+        let rng: Vec<String> = probes.iter().map(|p| sg.sa_range_for(*p).map(|(a, b)| format!("{}:{}", a, b)).unwrap_or("err".into())).collect();
+        let i2s: Vec<String> = (0..n + 3).map(|i| opt(sg.sa_index_to_sigma(i))).collect();
+        let i2t: Vec<String> = (0..n + 3).map(|i| opt(sg.sa_index_to_t(i))).collect();
+        let mut bs = vec![];
+        let bs_s = sg.bucket_starts(&mut bs).map(|_| nums(bs.iter())).unwrap_or("err".into());
+        let mut bl = vec![];
+        let bl_s = sg.bucket_limits(&mut bl).map(|_| nums(bl.iter())).unwrap_or("err".into());
+        let tr: Option<Vec<u32>> = text.iter().map(|t| sg.char_to_sigma(*t)).collect();
+        let tr_s = tr.map(|mut v| { v.push(0); nums(v.iter()) }).unwrap_or("err".into());
+        Ok(format!("K={} s2c={} c2s={} rng={} i2s={} i2t={} bs={} bl={} tr={}", k, s2c.join(","), if c2s.is_empty() { "-".into() } else { c2s.join(",") }, if rng.is_empty() { "-".into() } else { rng.join(",") }, i2s.join(","), i2t.join(","), bs_s, bl_s, tr_s))
+    });
+    // the property on a plain sorted copy of the text
+    let d = distinct(&text);
+    let mut sorted = text.clone();
+    sorted.sort();
+    let exp = {
+        let k = d.len() + 1;
+        let s2c: Vec<String> = (1..=k + 1).map(|i| d.get(i - 1).map(|v| v.to_string()).unwrap_or("-".into())).collect();
+        let pos = |p: &u32| d.iter().position(|x| x == p);
+        let c2s: Vec<String> = probes.iter().map(|p| pos(p).map(|i| (i + 1).to_string()).unwrap_or("-".into())).collect();
+        let rng: Vec<String> = probes
+            .iter()
+            .map(|p| match pos(p) {
+                Some(_) => {
+                    let lo = sorted.iter().filter(|x| *x < p).count();
+                    let c = sorted.iter().filter(|x| *x == p).count();
+                    format!("{}:{}", lo + 1, lo + c)
+                }
+                None => "1:0".into(),
+            })
+            .collect();
+        let sym = |i: usize| -> Option<usize> {
+            if i == 0 {
+                Some(0)
+            } else if i <= n {
+                Some(d.iter().position(|x| *x == sorted[i - 1]).unwrap() + 1)
+            } else {
+                None
+            }
+        };
+        let i2s: Vec<String> = (0..n + 3).map(|i| sym(i).map(|v| v.to_string()).unwrap_or("-".into())).collect();
+        let i2t: Vec<String> = (0..n + 3).map(|i| if i >= 1 && i <= n { sorted[i - 1].to_string() } else { "-".into() }).collect();
+        let mut starts = vec![0usize];
+        let mut limits = vec![1usize];
+        for c in &d {
+            let lo = sorted.iter().filter(|x| *x < c).count();
+            let cnt = sorted.iter().filter(|x| *x == c).count();
+            starts.push(lo + 1);
+            limits.push(lo + cnt + 1);
+        }
+        let tr: Vec<usize> = text.iter().map(|t| pos(t).unwrap() + 1).chain(std::iter::once(0)).collect();
+        format!("K={} s2c={} c2s={} rng={} i2s={} i2t={} bs={} bl={} tr={}", k, s2c.join(","), if c2s.is_empty() { "-".into() } else { c2s.join(",") }, if rng.is_empty() { "-".into() } else { rng.join(",") }, i2s.join(","), i2t.join(","), nums(starts.iter()), nums(limits.iter()), nums(tr.iter()))
+    };
+    rec.count(&format!("sigma.alphabet.{}", alpha));
+    rec.count(&format!("sigma.K.{}", match d.len() { 1 => "1", 2 => "2", 3..=16 => "3-16", 17..=255 => "17-255", _ => ">=256" }));
+    let nt = Some(fnv(req.as_bytes()));
+    match r {
+        Ok(Ok(line)) => {
+            let v = if line == exp { Verdict::Ok } else { Verdict::Fail { class: "sigma-answer".into(), detail: format!("got {} expected {}", clip(&line), clip(&exp)) } };
+            rec.case(&req, &line, v, nt);
+        }
+        Ok(Err(m)) => rec.case(&req, &m.replace(' ', "_"), Verdict::Fail { class: "sigma-answer".into(), detail: m }, nt),
+        Err(m) => rec.case(&req, "panic", Verdict::Fail { class: "doc-panic".into(), detail: m }, nt),
+    }
+}
+
+/// `doc wt`: the real Huffman-shaped wavelet tree against the model over the real code book
+fn wt_case(rec: &mut Recorder, text: Vec<u32>, qs: Vec<u32>, shape: &str) {
+    use scrunch::encoder::{Encoder, HuffmanEncoder};
+    use scrunch::wavelet_tree::prefix::WaveletTree as PrefixWt;
+    use scrunch::wavelet_tree::WaveletTree;
+    let n = text.len();
+    let d = distinct(&text);
+    let enc = g(|| HuffmanEncoder::construct(&text));
+    let cb: Vec<String> = match &enc {
+        Ok(e) => d.iter().map(|s| match e.encode(*s) { Some((c, l)) => format!("{}:{}:{}", s, c, l), None => format!("{}:0:0", s) }).collect(),
+        Err(_) => vec![],
+    };
+    let req = format!("doc wt {} {} {}", if cb.is_empty() { "-".to_string() } else { cb.join(",") }, nums(text.iter()), nums(qs.iter()));
+    let opt = |o: Option<usize>| o.map(|v| v.to_string()).unwrap_or("-".into());
+    let r = g(|| -> Result<(Vec<Option<u32>>, Vec<Vec<Option<usize>>>, Vec<Vec<Option<usize>>>, usize), String> {
+        let mut buf = vec![];
+        {
+            let mut b = Builder::new(&mut buf);
+            <PrefixWt<HuffmanEncoder> as WaveletTree>::construct(&text, &mut b).map_err(|e| format!("construct:{:?}", e))?;
+        }
+        let wt = <PrefixWt<HuffmanEncoder> as Unpackable>::unpack(&buf).map_err(|e| format!("unpack:{:?}", e))?.0;
+        let a = (0..n + 2).map(|x| wt.access(x)).collect();
+        let r = qs.iter().map(|q| (0..n + 2).map(|x| wt.rank_q(*q, x)).collect()).collect();
+        let s = qs.iter().map(|q| (0..n + 2).map(|x| wt.select_q(*q, x)).collect()).collect();
+        Ok((a, r, s, wt.len()))
+    });
+    rec.count(&format!("wt.shape.{}", shape));
+    rec.count(&format!("wt.K.{}", match d.len() { 0 => "0", 1 => "1", 2 => "2", 3..=8 => "3-8", 9..=64 => "9-64", _ => ">64" }));
+    let nt = if n >= 1 { Some(fnv(req.as_bytes())) } else { None };
+    match r {
+        Ok(Ok((a, rk, sl, len))) => {
+            let row = |v: &Vec<Option<usize>>| v.iter().map(|x| opt(*x)).collect::<Vec<_>>().join(",");
+            let line = format!(
+                "pf=1 len={} a={} r={} s={}",
+                len,
+                a.iter().map(|x| x.map(|v| v.to_string()).unwrap_or("-".into())).collect::<Vec<_>>().join(","),
+                if qs.is_empty() { "-".to_string() } else { rk.iter().map(row).collect::<Vec<_>>().join("|") },
+                if qs.is_empty() { "-".to_string() } else { sl.iter().map(row).collect::<Vec<_>>().join("|") }
+            );
+            // the property on the plain symbol list, for the symbols that occur
+            let mut what: Vec<String> = vec![];
+            if len != n {
+                what.push(format!("len {}!={}", len, n));
+            }
+            for x in 0..n + 2 {
+                if a[x] != text.get(x).copied() {
+                    what.push(format!("access({})", x));
+                    break;
+                }
+            }
+            for (k, q) in qs.iter().enumerate() {
+                if !text.contains(q) {
+                    continue;
+                }
+                let pos: Vec<usize> = (0..n).filter(|&i| text[i] == *q).collect();
+                for x in 0..n + 2 {
+                    let er = if x <= n { Some(text[..x].iter().filter(|t| *t == q).count()) } else { None };
+                    let es = if x == 0 { Some(0) } else { pos.get(x - 1).map(|p| p + 1) };
+                    if rk[k][x] != er {
+                        what.push(format!("rank_q({},{})={:?}!={:?}", q, x, rk[k][x], er));
+                        break;
+                    }
+                    if sl[k][x] != es {
+                        what.push(format!("select_q({},{})={:?}!={:?}", q, x, sl[k][x], es));
+                        break;
+                    }
+                }
+            }
+            let v = if what.is_empty() { Verdict::Ok } else { Verdict::Fail { class: "wavelet-answer".into(), detail: what.join(" ; ") } };
+            rec.case(&req, &line, v, nt);
+        }
+        Ok(Err(m)) => rec.case(&req, &m.replace(' ', "_"), Verdict::Fail { class: "wavelet-answer".into(), detail: m }, nt),
+        Err(m) => rec.case(&req, "panic", Verdict::Fail { class: "doc-panic".into(), detail: m }, nt),
+    }
+}
+
+/// `doc wtpsi`: the real `WaveletTreePsi` on its own: `lookup` at every rank (and two beyond) and
+/// `constrain(column of sigma, (a, b))` for every symbol and every closed `(a, b)`, `a <= b <= n`
+fn wtpsi_case(rec: &mut Recorder, text: Vec<u32>, shape: &str) {
+    use scrunch::sigma::Sigma;
+    let n = text.len();
+    let req = format!("doc wtpsi {}", nums(text.iter()));
+    let (_sa, _isa, psi) = naive_sa(&text);
+    let r = g(|| -> Result<(usize, Vec<String>, Vec<String>, Vec<String>), String> {
+        let sigma_buf = build_sigma(&text)?;
+        let sigma = <Sigma as Unpackable>::unpack(&sigma_buf).map_err(|e| format!("sigma:{:?}", e))?.0;
+        let mut buf = vec![];
+        {
+            let mut b = Builder::new(&mut buf);
+            <WtPsi as Psi>::construct(&sigma, &psi, &mut b).map_err(|e| format!("construct:{:?}", e))?;
+        }
+        let wp = <WtPsi as Unpackable>::unpack(&buf).map_err(|e| format!("unpack:{:?}", e))?.0;
+        // the u32 constructor must build the same thing
+        let psi32: Vec<u32> = psi.iter().map(|x| *x as u32).collect();
+        let mut buf2 = vec![];
+        {
+            let mut b = Builder::new(&mut buf2);
+            <WtPsi as Psi>::construct_u32(&sigma, &psi32, &mut b).map_err(|e| format!("construct_u32:{:?}", e))?;
+        }
+        let same = buf == buf2;
+        let lk: Vec<String> = (0..n + 3)
+            .map(|i| match g(|| wp.lookup(&sigma, i)) {
+                Ok(Ok(v)) => v.to_string(),
+                Ok(Err(_)) => "err".into(),
+                Err(_) => "!".into(),
+            })
+            .collect();
+        let mut cons = vec![];
+        let mut bad = vec![];
+        for sym in 1..sigma.K() as u32 {
+            let range = match sigma.sa_range_for_sigma(sym) {
+                Ok(r) => r,
+                Err(_) => {
+                    cons.push("err".to_string());
+                    continue;
+                }
+            };
+            let mut row = vec![];
+            for a in 0..=n {
+                for b in a..=n {
+                    let got = g(|| wp.constrain(&sigma, range, (a, b)));
+                    // the property: ReferencePsi's two binary searches over psi[range]
+                    let lo = range.0 + (range.0..=range.1).filter(|&i| psi[i] < a).count();
+                    let hi1 = range.0 + (range.0..=range.1).filter(|&i| psi[i] <= b).count();
+                    match got {
+                        Ok(Ok((x, y))) => {
+                            row.push(format!("{}:{}", x, y));
+                            if (x, y + 1) != (lo, hi1) {
+                                bad.push(format!("constrain(sym {}, {:?}, ({},{}))=({},{}) expected ({},{})", sym, range, a, b, x, y, lo, hi1 as i64 - 1));
+                            }
+                        }
+                        Ok(Err(_)) => {
+                            row.push("err".into());
+                            bad.push(format!("constrain(sym {}, ({},{})) is an error", sym, a, b));
+                        }
+                        Err(_) => {
+                            row.push("!".into());
+                            bad.push(format!("constrain(sym {}, ({},{})) panics", sym, a, b));
+                        }
+                    }
+                }
+            }
+            cons.push(row.join(","));
+        }
+        if !same {
+            bad.push("construct_u32 differs from construct".into());
+        }
+        Ok((wp.len(), lk, cons, bad))
+    });
+    rec.count(&format!("wtpsi.shape.{}", shape));
+    rec.count(&format!("wtpsi.n.{}", match n { 1 => "1", 2..=4 => "2-4", 5..=8 => "5-8", _ => "9-14" }));
+    let nt = if n >= 2 { Some(fnv(req.as_bytes())) } else { None };
+    match r {
+        Ok(Ok((len, lk, cons, mut bad))) => {
+            let line = format!("len={} lk={} con={}", len, lk.join(","), if cons.is_empty() { "-".to_string() } else { cons.join("|") });
+            for i in 0..=n {
+                if lk[i] != psi[i].to_string() {
+                    bad.push(format!("lookup({})={} expected {}", i, lk[i], psi[i]));
+                    break;
+                }
+            }
+            // lookup(len) panics in the code (y_value[#cells]); no caller asks for it: outside the property
+            let v = if bad.is_empty() { Verdict::Ok } else { Verdict::Fail { class: "wtpsi-answer".into(), detail: bad[..bad.len().min(3)].join(" ; ") } };
+            rec.case(&req, &line, v, nt);
+        }
+        Ok(Err(m)) => rec.case(&req, &m.replace(' ', "_"), Verdict::Fail { class: "wtpsi-answer".into(), detail: m }, nt),
+        Err(m) => rec.case(&req, "panic", Verdict::Fail { class: "doc-panic".into(), detail: m }, nt),
+    }
+}
+
+fn run_sampled(args: &Args, rec: &mut Recorder) {
+    // ---- stream 20: the bit array ---------------------------------------------------------------
+    let n20 = if args.thorough { 600 } else { 120 };
+    for i in 0..n20 {
+        if !rec.wants() {
+            rec.skip();
+            continue;
+        }
+        let mut rng = Rng::for_case(args.seed, 20, i);
+        let k = if i < 4 { i as usize } else { rng.range(1, 40) as usize };
+        let style = rng.below(4);
+        let mut pushes: Vec<(usize, u64)> = vec![];
+        for _ in 0..k {
+            let w = match style {
+                0 => *rng.pick(&[0usize, 1, 6, 7, 8, 9, 16, 31, 32, 33, 61, 63]),
+                1 => 6,
+                2 => rng.range(8, 20) as usize,
+                _ => rng.below(64) as usize,
+            };
+            let v = if w == 0 {
+                0
+            } else {
+                match rng.below(4) {
+                    0 => 0,
+                    1 => (1u64 << w) - 1,
+                    2 => 1u64 << (w - 1),
+                    _ => rng.next() & ((1u64 << w) - 1),
+                }
+            };
+            pushes.push((w, v));
+        }
+        let total: usize = pushes.iter().map(|p| p.0).sum();
+        let padded = (total + 7) / 8 * 8;
+        let mut loads: Vec<(usize, usize)> = vec![(0, 0), (padded, 0), (padded + 9, 0), (total, 1), (padded, 1), (padded.saturating_sub(1), 1), (padded.saturating_sub(1), 2), (padded.saturating_sub(8), 8), (padded.saturating_sub(8), 9)];
+        let mut off = 0;
+        for (w, _) in &pushes {
+            loads.push((off, *w));
+            off += w;
+        }
+        for _ in 0..12 {
+            let w = *rng.pick(&[1usize, 5, 6, 8, 13, 32, 33, 57, 63, 64]);
+            loads.push((rng.below(padded as u64 + 4) as usize, w));
+        }
+        ba_case(rec, pushes, loads);
+    }
+    // ---- stream 21: SampledArray -----------------------------------------------------------------
+    let n21 = if args.thorough { 500 } else { 100 };
+    for i in 0..n21 {
+        if !rec.wants() {
+            rec.skip();
+            continue;
+        }
+        let mut rng = Rng::for_case(args.seed, 21, i);
+        let k = match rng.below(5) {
+            0 => 1,
+            1 => *rng.pick(&[127usize, 128, 129, 256, 257]),
+            _ => rng.range(1, 60) as usize,
+        };
+        let (gap_kind, kind): (u64, &str) = match rng.below(4) {
+            0 => (0, "dense"),
+            1 => (1, "stride-64"),
+            2 => (2, "around-128"),
+            _ => (3, "random-gaps"),
+        };
+        let vmax: u64 = *rng.pick(&[1u64, 2, 255, 256, 65535, 1 << 20, (1 << 32) - 1, 1 << 32, 1 << 45]);
+        let mut off = match rng.below(3) {
+            0 => 0usize,
+            1 => rng.below(5) as usize,
+            _ => rng.below(300) as usize,
+        };
+        let mut vals: Vec<(usize, usize)> = vec![];
+        for j in 0..k {
+            let v = match rng.below(5) {
+                0 => 0,
+                1 => vmax,
+                2 => vmax / 2,
+                _ => rng.below(vmax + 1),
+            } as usize;
+            vals.push((off, v));
+            off += match gap_kind {
+                0 => 1,
+                1 => 64,
+                2 => *rng.pick(&[1usize, 127, 128, 129]),
+                _ => rng.range(1, 40) as usize,
+            };
+            let _ = j;
+        }
+        sarr_case(rec, &mut rng, vals, kind);
+    }
+    // ---- stream 22: sampled suffix array, every stride 2^0 .. 2^6 ---------------------------------
+    let n22 = if args.thorough { 700 } else { 140 };
+    for i in 0..n22 {
+        if !rec.wants() {
+            rec.skip();
+            continue;
+        }
+        let mut rng = Rng::for_case(args.seed, 22, i);
+        let sampling = if i < 14 { (i % 7) as usize } else { *rng.pick(&[0usize, 1, 2, 3, 4, 5, 6, 6]) };
+        let stride = 1usize << sampling;
+        // text lengths: n + 1 suffixes; the last suffix sits at position n: make n and n + 1 hit the
+        // multiples of the stride, and the tiny cases
+        let n = if i < 14 {
+            1 + (i / 7) as usize
+        } else {
+            match rng.below(6) {
+                0 => (stride * rng.range(1, 3) as usize).max(1),
+                1 => (stride * rng.range(1, 3) as usize + 1).max(1),
+                2 => (stride * rng.range(1, 3) as usize).saturating_sub(1).max(1),
+                3 => rng.range(1, 12) as usize,
+                _ => rng.range(2, 150) as usize,
+            }
+        };
+        let k = *rng.pick(&[1usize, 2, 2, 3, 4, 7]);
+        let shape_kind = rng.below(8);
+        let (text, _alphabet, _absent, shape, _alpha) = make_text(&mut rng, n, k.min(n), shape_kind);
+        ssa_case(rec, sampling, text, shape);
+    }
+    // ---- stream 23: sampled inverse suffix array ---------------------------------------------------
+    let n23 = if args.thorough { 500 } else { 100 };
+    for i in 0..n23 {
+        if !rec.wants() {
+            rec.skip();
+            continue;
+        }
+        let mut rng = Rng::for_case(args.seed, 23, i);
+        let n = if rng.chance(1, 4) { rng.range(120, 140) } else { rng.range(1, 70) } as usize;
+        let k = *rng.pick(&[1usize, 2, 3, 5]);
+        let shape_kind = rng.below(8);
+        let (text, _alphabet, _absent, _shape, _alpha) = make_text(&mut rng, n, k.min(n), shape_kind);
+        let (mut ps, _) = gen_boundaries(&mut rng, n);
+        let kind = match rng.below(8) {
+            0 => {
+                // the end marker's own position is a legal sample
+                ps.push(n);
+                "with-end-marker"
+            }
+            1 => {
+                ps.push(n + 1 + rng.below(2) as usize);
+                "beyond-text"
+            }
+            2 => {
+                let j = rng.below(ps.len() as u64) as usize;
+                let d = ps[j];
+                ps.insert(j, d);
+                "duplicate"
+            }
+            3 if ps.len() >= 2 => {
+                let l = ps.len();
+                ps.swap(l - 1, l - 2);
+                "not-increasing"
+            }
+            4 => {
+                ps = vec![rng.below(n as u64 + 1) as usize];
+                "single"
+            }
+            5 => {
+                ps.remove(0);
+                if ps.is_empty() {
+                    ps.push(n / 2);
+                }
+                "not-from-zero"
+            }
+            _ => "record-boundaries",
+        };
+        sisa_case(rec, text, ps, kind);
+    }
+    // ---- stream 24: the alphabet ---------------------------------------------------------------------
+    let n24 = if args.thorough { 600 } else { 120 };
+    for i in 0..n24 {
+        if !rec.wants() {
+            rec.skip();
+            continue;
+        }
+        let mut rng = Rng::for_case(args.seed, 24, i);
+        // directed: code points at the powers of two the dense count table is resized at, alone and
+        // after a smaller one; then generated alphabets
+        let directed: [&[u32]; 12] = [&[256], &[255], &[257], &[0], &[512, 3], &[3, 512], &[1 << 20], &[(1 << 20) + 1], &[(1 << 20) - 1, 1 << 20, (1 << 20) + 1], &[65536, 65535], &[1024, 2048, 4096], &[u32::MAX, 0]];
+        let (text, alpha): (Vec<u32>, &str) = if (i as usize) < directed.len() {
+            let a = directed[i as usize];
+            let n = a.len() + rng.below(4) as usize;
+            ((0..n).map(|j| a[j % a.len()]).collect(), "directed-power-of-two")
+        } else {
+            let n = if rng.chance(1, 5) { rng.range(60, 300) } else { rng.range(1, 40) } as usize;
+            let k = match rng.below(5) {
+                0 => 1,
+                1 => 2,
+                2 => rng.range(3, 16) as usize,
+                3 => rng.range(17, 300) as usize,
+                _ => rng.range(2, 8) as usize,
+            }
+            .min(n);
+            let (alphabet, alpha) = if rng.chance(1, 4) {
+                // powers of two and their neighbours
+                let mut p: Vec<u32> = (0..=31u32).flat_map(|e| [(1u32 << e).wrapping_sub(1), 1u32 << e, (1u32 << e) + 1]).collect();
+                p.sort();
+                p.dedup();
+                rng.shuffle(&mut p);
+                p.truncate(k);
+                (p, "powers-of-two")
+            } else {
+                gen_alphabet(&mut rng, k)
+            };
+            let kk = alphabet.len();
+            let sk = rng.below(8);
+            let (shape, _) = gen_shape(&mut rng, sk, n, kk);
+            (shape.iter().map(|&j| alphabet[j.min(kk - 1)]).collect(), alpha)
+        };
+        let mut probes = distinct(&text);
+        let base = probes.clone();
+        for t in base {
+            probes.push(t.wrapping_add(1));
+            probes.push(t.wrapping_sub(1));
+        }
+        probes.extend_from_slice(&[0, 1, 255, 256, 1 << 20, (1 << 20) + 1, u32::MAX]);
+        probes.sort();
+        probes.dedup();
+        if probes.len() > 60 {
+            rng.shuffle(&mut probes);
+            probes.truncate(60);
+        }
+        sigma_case(rec, text, probes, alpha);
+    }
+    // ---- stream 25: the Huffman-shaped wavelet tree ---------------------------------------------------
+    let n25 = if args.thorough { 600 } else { 120 };
+    for i in 0..n25 {
+        if !rec.wants() {
+            rec.skip();
+            continue;
+        }
+        let mut rng = Rng::for_case(args.seed, 25, i);
+        let n = match i {
+            0 => 0,
+            1 => 1,
+            2 => 2,
+            _ => match rng.below(6) {
+                0 => *rng.pick(&[62usize, 63, 64, 126, 127, 504, 505]),
+                1 => rng.range(100, 300) as usize,
+                _ => rng.range(1, 60) as usize,
+            },
+        };
+        let k = match rng.below(6) {
+            0 => 1,
+            1 => 2,
+            2 => 3,
+            3 => rng.range(4, 9) as usize,
+            4 => rng.range(9, 40) as usize,
+            _ => rng.range(2, 5) as usize,
+        }
+        .min(n.max(1));
+        // dense small symbols (as the psi rows have), sometimes skewed so that the code lengths differ
+        let shape_kind = rng.below(9);
+        let (shape, sname): (Vec<usize>, &str) = if n == 0 {
+            (vec![], "empty")
+        } else if shape_kind == 8 {
+            // geometric: symbol j with weight 2^-j
+            ((0..n).map(|_| { let mut j = 0; while j + 1 < k && rng.chance(1, 2) { j += 1; } j }).collect(), "geometric")
+        } else {
+            gen_shape(&mut rng, shape_kind, n, k)
+        };
+        let base = *rng.pick(&[0u32, 0, 1, 7, 1000, 1 << 20, 5_000_000]);
+        let step = *rng.pick(&[1u32, 1, 3]);
+        let text: Vec<u32> = shape.iter().map(|&j| base + step * j as u32).collect();
+        let mut qs = distinct(&text);
+        if qs.len() > 8 {
+            rng.shuffle(&mut qs);
+            qs.truncate(8);
+        }
+        // a symbol of the alphabet range that does not occur, and one outside
+        qs.push(base + step * k as u32 + 1);
+        if step > 1 {
+            qs.push(base + 1);
+        }
+        qs.sort();
+        qs.dedup();
+        wt_case(rec, text, qs, sname);
+    }
+    // ---- stream 26: the wavelet-tree psi, every column x every closed interval --------------------------
+    let n26 = if args.thorough { 500 } else { 90 };
+    for i in 0..n26 {
+        if !rec.wants() {
+            rec.skip();
+            continue;
+        }
+        let mut rng = Rng::for_case(args.seed, 26, i);
+        let n = match i {
+            0..=5 => 1 + (i as usize) / 2,
+            _ => rng.range(2, 14) as usize,
+        };
+        let k = if i < 6 { 1 + (i as usize % 2) } else { *rng.pick(&[1usize, 2, 2, 3, 3, 4, 6]) };
+        let shape_kind = if i < 6 { 3 } else { rng.below(8) };
+        let (text, _alphabet, _absent, shape, _alpha) = make_text(&mut rng, n, k.min(n), shape_kind);
+        wtpsi_case(rec, text, shape);
+    }
+}
+
 pub fn run(args: &Args) {
     let mut rec = Recorder::new(&args.out, args.only_case);
     let t0 = std::time::Instant::now();
     run_bv(args, &mut rec);
     let t1 = std::time::Instant::now();
     run_docs(args, &mut rec);
-    eprintln!("C19 harness: bv {:.1}s, doc {:.1}s", (t1 - t0).as_secs_f64(), t1.elapsed().as_secs_f64());
+    let t2 = std::time::Instant::now();
+    run_sampled(args, &mut rec);
+    eprintln!("C19 harness: bv {:.1}s, doc {:.1}s, sampled {:.1}s", (t1 - t0).as_secs_f64(), (t2 - t1).as_secs_f64(), t2.elapsed().as_secs_f64());
     rec.finish(
         "bv: seeded bit patterns (all-zeros, all-ones, alternating, runs of length B-1/B/B+1 for the block sizes B of the implementations, single bits at block boundaries, stripes, random densities 1/2..1/1000, random runs) of length 0..70 exhaustively, around every block size, and up to 6000 (quick) / 70000 (thorough) bits, asked at every argument (small) or at 36-40 boundary+random arguments (large), through seven implementations each parsed twice; doc: texts (single symbol, all-equal, periodic, de Bruijn, Fibonacci/Thue-Morse, monotone, one-off, repeats, random) over alphabets of 1..3000 (thorough: >65536) code points incl. 0, 2^20+-1, 0x10FFFF, 0x110000, 2^32-1, with records at every admissible kind of division; patterns exhaustive up to length 3-4 over alphabet+absent symbol for n<=14, sampled (substrings, boundary-crossing, perturbed, absent, whole text, longer than text, empty) otherwise; plus inadmissible divisions and the empty text; non-trivial = a non-empty bit vector; a document of >= 2 symbols with >= 1 non-empty pattern; every big/rejected case; distinct by request text",
         &[],
